@@ -742,7 +742,7 @@ func faultJSONBody(s *simrt.Sim) {
 	if err != nil {
 		s.Fail("encode-accepts", "JSONEncode:"+e.name, "JSONEncode rejected a generated %s value: %v", e.name, err)
 	}
-	classes := []string{"wrong-json-type", "key-dropped", "truncate", "key-duplicated", "flip-sampled"}
+	classes := []string{"wrong-json-type", "key-dropped", "truncate", "key-duplicated", "flip-sampled", "array-resized"}
 	class := classes[s.Choose(len(classes))]
 	viaJSON := s.Choose(2) == 1 // JSONDecode (text) or MapDecode (tree)
 	if class == "truncate" || class == "key-duplicated" || class == "flip-sampled" {
@@ -822,6 +822,41 @@ func faultJSONBody(s *simrt.Sim) {
 				fresh[idx].set(v)
 				s.Fault("json-wrong-type")
 				run(tree, "wrong-json-type:"+site.kind, fmt.Sprintf("%s (%s, was %s) replaced by %s; via %s", site.path, site.kind, jsonTypeName(site.expect), rep.name, entryPoint))
+			}
+		}
+	case "array-resized":
+		// every JSON array of the document is delivered one element longer (last element repeated), one element shorter
+		// and doubled: a lost or repeated chunk of a stored document (complete for this document)
+		var sites []jsonSite
+		jsonSites(e.n, parse(), "$", func(any) {}, nil, &sites)
+		for idx := 1; idx < len(sites); idx++ {
+			arr, isArr := sites[idx].expect.([]any)
+			if !isArr {
+				continue
+			}
+			for variant := 0; variant < 3; variant++ {
+				var fresh []jsonSite
+				tree := parse()
+				jsonSites(e.n, tree, "$", func(any) {}, nil, &fresh)
+				if idx >= len(fresh) {
+					continue
+				}
+				cur, _ := fresh[idx].expect.([]any)
+				var resized []any
+				var what string
+				switch {
+				case variant == 0 && len(cur) > 0:
+					resized, what = append(append([]any{}, cur...), cur[len(cur)-1]), "one element longer"
+				case variant == 1 && len(cur) > 0:
+					resized, what = append([]any{}, cur[:len(cur)-1]...), "one element shorter"
+				case variant == 2 && len(cur) > 0:
+					resized, what = append(append([]any{}, cur...), cur...), "doubled"
+				default:
+					continue
+				}
+				fresh[idx].set(resized)
+				s.Fault("json-array-resized")
+				run(tree, "array-resized:"+sites[idx].kind, fmt.Sprintf("%s (%s, %d elements) delivered %s; via %s", sites[idx].path, sites[idx].kind, len(arr), what, entryPoint))
 			}
 		}
 	case "key-dropped":
